@@ -59,6 +59,23 @@ class TheCheck(Check):
         q_alpha = b"=&%a +"
         sts.append(Stream("exhaustive:query", ["query %s 3d 26" % hexs(s) for s in strings_upto(q_alpha, 6 if big else 5)]))
         sts.append(Stream("exhaustive:makeword", ["makeword %s 3d" % hexs(s) for s in strings_upto(b"=a&", 5)]))
+        # unusual separators: qparse_queries / qconfig hand the caller's separator to _q_makeword unchanged -
+        # '\0' (the terminator IS the stop byte), bytes >= 0x80 (char is signed), '%', '+', blank; also
+        # equalchar == sepchar. Inputs in exactly sized heap strings.
+        SEPS = [0x3d, 0x26, 0x3b, 0x20, 0x00, 0x80, 0xff, 0x25, 0x2b]
+        mw_alpha = b"=a&; %\x80\xff"
+        sts.append(Stream("makeword-stops", ["makeword %s %02x" % (hexs(s), st) for st in SEPS
+                                             for s in strings_upto(mw_alpha, 4 if big else 3)]))
+        qa = b"=&; %+a\x80\xff"
+        qops = []
+        for e in SEPS:
+            for sp in SEPS:
+                for s in strings_upto(b"=&a", 3):
+                    qops.append("query %s %02x %02x" % (hexs(s), e, sp))
+                for _ in range(12 if not big else 200):
+                    x = bytes(rng.choice(qa) for _ in range(rng.randrange(1, 24)))
+                    qops.append("query %s %02x %02x" % (hexs(x), e, sp))
+        sts.append(Stream("query-separators", qops))
         # every single byte and every byte after '%' / '%x'
         one = []
         for c in range(1, 256):
